@@ -94,6 +94,9 @@ def gen_doc(rng, shape=None, max_subnets=5, max_hosts=4, n_public=None,
     oss = rng.sample(OS_POOL, rng.randint(1, 3))
     srvs = rng.sample(SRV_POOL, rng.randint(1, 4))
     procs = rng.sample(PROC_POOL, rng.randint(1, 3))
+    if rng.random() < 0.05:
+        # name coincidence: a process called like a service
+        procs[0] = srvs[0]
     addrs = [(s + 1, h) for s in range(n) for h in range(sizes[s])]
 
     doc = {}
@@ -117,7 +120,14 @@ def gen_doc(rng, shape=None, max_subnets=5, max_hosts=4, n_public=None,
             cost = rng.choice([1, 1, 2, 3, 1.5])
         else:
             cost = rng.choice([1, 1, 2, 3, 0.5, 1.5, 0.1])
-        exploits[f"e{i}_{srv}"] = {
+        ename = f"e{i}_{srv}"
+        if rng.random() < 0.03:
+            # name coincidences with the built-in actions
+            ename = rng.choice(["subnet_scan", "service_scan", "os_scan",
+                                "process_scan", "noop"])
+            if ename in exploits:
+                ename = f"e{i}_{srv}"
+        exploits[ename] = {
             "service": srv, "os": os_,
             "prob": rng.choice([0, 0.3, 0.5, 0.8, 0.999, 1.0, 1.0, 1,
                                 round(rng.random(), 3)]),
